@@ -209,6 +209,91 @@ theorem normQ_canon (e : IExpr) : ∀ {p : Poly}, normQ e = some p → Canon p :
   | max a b => intro p h; simp [normQ] at h
   | arr1 f i => intro p h; simp [normQ] at h
   | arr2 f i j => intro p h; simp [normQ] at h
+  | arr3 f i j k => intro p h; simp [normQ] at h
+  | powe a b => intro p h; simp [normQ] at h
+
+/-! ### totality of `normQ` on polynomial expressions -/
+
+theorem normQ_total {e : IExpr} (h : isPoly e = true) : ∃ d, normQ e = some d := by
+  induction e with
+  | lit n => exact ⟨_, rfl⟩
+  | var v => exact ⟨_, rfl⟩
+  | neg a ih =>
+    simp only [isPoly] at h
+    obtain ⟨d, hd⟩ := ih h
+    exact ⟨negPoly d, by simp [normQ, hd]⟩
+  | add a b iha ihb =>
+    simp only [isPoly, Bool.and_eq_true] at h
+    obtain ⟨p, hp⟩ := iha h.1
+    obtain ⟨q, hq⟩ := ihb h.2
+    exact ⟨addPoly p q, by simp [normQ, hp, hq]⟩
+  | sub a b iha ihb =>
+    simp only [isPoly, Bool.and_eq_true] at h
+    obtain ⟨p, hp⟩ := iha h.1
+    obtain ⟨q, hq⟩ := ihb h.2
+    exact ⟨addPoly p (negPoly q), by simp [normQ, hp, hq]⟩
+  | mul a b iha ihb =>
+    simp only [isPoly, Bool.and_eq_true] at h
+    obtain ⟨p, hp⟩ := iha h.1
+    obtain ⟨q, hq⟩ := ihb h.2
+    exact ⟨mulPoly p q, by simp [normQ, hp, hq]⟩
+  | pow a k ih =>
+    simp only [isPoly] at h
+    obtain ⟨d, hd⟩ := ih h
+    exact ⟨powPoly d k, by simp [normQ, hd]⟩
+  | div a b => simp [isPoly] at h
+  | mod a b => simp [isPoly] at h
+  | min a b => simp [isPoly] at h
+  | max a b => simp [isPoly] at h
+  | arr1 f i => simp [isPoly] at h
+  | arr2 f i j => simp [isPoly] at h
+  | arr3 f i j k => simp [isPoly] at h
+  | powe a b => simp [isPoly] at h
+
+theorem isPoly_wrapPow {t : IExpr} (h : isPoly t = true) (acc : Option Nat) : isPoly (wrapPow acc t) = true := by
+  cases acc <;> simpa [wrapPow, isPoly] using h
+
+theorem isPoly_toSymAux (brk : Bool) {e : IExpr} (h : isPoly e = true) :
+    ∀ acc, isPoly (toSymAux brk e acc) = true := by
+  induction e with
+  | lit n => intro acc; exact isPoly_wrapPow (by simp [isPoly]) acc
+  | var v => intro acc; exact isPoly_wrapPow (by simp [isPoly]) acc
+  | neg a ih =>
+    intro acc
+    simp only [isPoly] at h
+    exact isPoly_wrapPow (by simp [isPoly, ih h none]) acc
+  | add a b iha ihb =>
+    intro acc
+    simp only [isPoly, Bool.and_eq_true] at h
+    exact isPoly_wrapPow (by simp [isPoly, iha h.1 none, ihb h.2 none]) acc
+  | sub a b iha ihb =>
+    intro acc
+    simp only [isPoly, Bool.and_eq_true] at h
+    exact isPoly_wrapPow (by simp [isPoly, iha h.1 none, ihb h.2 none]) acc
+  | mul a b iha ihb =>
+    intro acc
+    simp only [isPoly, Bool.and_eq_true] at h
+    exact isPoly_wrapPow (by simp [isPoly, iha h.1 none, ihb h.2 none]) acc
+  | pow a k ih =>
+    intro acc
+    simp only [isPoly] at h
+    simp only [toSymAux]
+    split
+    · exact isPoly_wrapPow (by simp [isPoly, ih h none]) acc
+    · exact ih h _
+  | div a b => simp [isPoly] at h
+  | mod a b => simp [isPoly] at h
+  | min a b => simp [isPoly] at h
+  | max a b => simp [isPoly] at h
+  | arr1 f i => simp [isPoly] at h
+  | arr2 f i j => simp [isPoly] at h
+  | arr3 f i j k => simp [isPoly] at h
+  | powe a b => simp [isPoly] at h
+
+/-- the translated difference of two polynomial expressions is always in the domain of `normQ` -/
+theorem normQ_diff_total (brk : Bool) {e1 e2 : IExpr} (h1 : isPoly e1 = true) (h2 : isPoly e2 = true) :
+    ∃ d, normQ (.sub (toSym brk e1) (toSym brk e2)) = some d :=
+  normQ_total (by simp [isPoly, toSym, isPoly_toSymAux brk h1 none, isPoly_toSymAux brk h2 none])
 
 /-! ### a canonical polynomial vanishing on ℤ is empty -/
 
@@ -229,7 +314,7 @@ theorem monoF_inj {m m' : Mono} (h : MonoSorted m) (h' : MonoSorted m') (e : mon
 
 noncomputable def toMv (p : Poly) : MvPolynomial ℕ ℚ := (p.map fun t => monomial (monoF t.1) t.2).sum
 
-def qenv (x : ℕ → ℚ) : QEnv := ⟨x, fun _ _ => 0, fun _ _ _ => 0⟩
+def qenv (x : ℕ → ℚ) : QEnv := ⟨x, fun _ _ => 0, fun _ _ _ => 0, fun _ _ _ _ => 0⟩
 
 theorem prod_monoF (x : ℕ → ℚ) (m : Mono) : ((monoF m).prod fun n e => x n ^ e) = evalMono m (qenv x) := by
   induction m with
@@ -292,7 +377,7 @@ theorem canon_vanish_int {p : Poly} (hc : Canon p) (h : ∀ ρ : Env, evalPoly p
   have hz : ∀ n, ∃ z : ℤ, (z : ℚ) = x n := fun n => by simpa using hx n (Set.mem_univ n)
   choose z hz using hz
   rw [eval_toMv, map_zero]
-  have := h ⟨z, fun _ _ => 0, fun _ _ _ => 0⟩
+  have := h ⟨z, fun _ _ => 0, fun _ _ _ => 0, fun _ _ _ _ => 0⟩
   rw [← this]
   exact evalPoly_congr (fun v => by simp [qenv, liftEnv, hz]) p
 
